@@ -120,7 +120,11 @@ def gen_script(rng, localraw, ifs, nops, focus):
         if rng.random() < 0.35:
             for _ in range(rng.choice([1, 1, 2])):
                 nm = rng.choice([cand(local, m.k), cand(local, m.k), "other" + LOCAL])
-                recs.append(arec(nm, rng.choice([1, 28]), rng.choice(["4:1", "4:3232235777", "6:" + "00" * 15 + "09", "6:fe80" + "00" * 13 + "01"])))
+                # ... including exactly the record the object would answer with: one of the machine's own addresses
+                own = [a for ents in ifs for a, _ in ents]
+                addr = rng.choice(own) if own and rng.random() < 0.6 else rng.choice(["4:1", "4:3232235777", "6:" + "00" * 15 + "09", "6:fe80" + "00" * 13 + "01"])
+                rt = (1 if addr.startswith("4:") else 28) if rng.random() < 0.8 else rng.choice([1, 28])
+                recs.append(arec(nm, rt, addr, rng.choice([120, 120, 1, 0, 4500])))
         lines.append("DELIVER %s|%d|%d|0|0|%s|%s" % (rng.choice(srcs), rng.choice([5353, 5353, 49152, 1]), rng.randrange(65536), ";".join(qs), ";".join(recs)))
 
     for _ in range(nops):
